@@ -48,6 +48,22 @@ def build(checks=CHECKS, todo=TODO, notes=None, extra=None):
                             "evidence_file": "/verif/evidence/%s.json" % pid, "replay_cmd_template": "./check replay --replay {path}", "engine": "tlc",
                             "level_claimed": {"category": level, "text": text, "design_ref": ref}, "level_note": note, "technique": tech})
     return m
+def collect():
+    """Checks declared by lib/plan_<family>.py modules: MANIFEST = {"Cnn": (level, design_ref, text, level_note, technique)}."""
+    import glob, importlib, sys
+    sys.path.insert(0, os.path.join(ROOT, "lib"))
+    checks, todo = dict(CHECKS), dict(TODO)
+    for f in sorted(glob.glob(os.path.join(ROOT, "lib", "plan_*.py"))):
+        m = importlib.import_module(os.path.basename(f)[:-3])
+        for pid, ent in getattr(m, "MANIFEST", {}).items():
+            checks[pid] = ent
+            todo.pop(pid, None)
+    return checks, todo
+
+
 if __name__ == "__main__":
-    json.dump(build(), open(os.path.join(ROOT, "MANIFEST.json"), "w"), indent=1)
+    CHECKS, TODO = collect()
+    import sys
+    sys.modules[__name__].CHECKS, sys.modules[__name__].TODO = CHECKS, TODO
+    json.dump(build(CHECKS, TODO), open(os.path.join(ROOT, "MANIFEST.json"), "w"), indent=1)
     print("MANIFEST.json written")
